@@ -271,7 +271,8 @@ impl_mono!(mono_threads, TCtx, TBox);
 macro_rules! impl_build {
   ($name:ident, $mono:ident, $ctx:ty, $bx:ty,
    $merge:ident, $zip:ident, $combine:ident, $wlf:ident, $take_until:ident,
-   $skip_until:ident, $sample:ident, $delay:ident, $delay_at:ident, $observe_on:ident) => {
+   $skip_until:ident, $sample:ident, $delay:ident, $delay_at:ident, $observe_on:ident,
+   $finalize:ident) => {
     pub fn $name(e: &SExp, ctx: &$ctx) -> $bx {
       let xs = e.list();
       let head = xs[0].atom();
@@ -387,6 +388,8 @@ macro_rules! impl_build {
           let vs: Vec<Val> = xs[1].list().iter().map(Val::parse).collect();
           last().start_with(vs).box_it()
         }
+        // `fin`: finalize / finalize_threads with a counted callback (counter `calls`)
+        "fin" => last().$finalize(ctx.call_counter()).box_it(),
         // ------------------------------------------------- derived ops
         "first" => last().first().box_it(),
         "firstor" => last().first_or(Val::parse(&xs[1])).box_it(),
@@ -491,7 +494,7 @@ macro_rules! impl_build {
 
 impl_build!(
   build_local, mono_local, LCtx, LBox, merge, zip, combine_latest, with_latest_from, take_until, skip_until,
-  sample, delay, delay_at, observe_on
+  sample, delay, delay_at, observe_on, finalize
 );
 impl_build!(
   build_threads,
@@ -507,5 +510,6 @@ impl_build!(
   sample_threads,
   delay_threads,
   delay_at_threads,
-  observe_on_threads
+  observe_on_threads,
+  finalize_threads
 );
